@@ -242,7 +242,11 @@ def slice.from_raw_parts {ρ} (p : RawPtr) (n : Nat) : M ρ RawSlice := fun s =>
   | false, .inl _ => .ub .oob           -- the first word of an inline value is text, not a pointer
   | true, .inl raw => if n ≤ raw.length then .next ⟨raw.take n⟩ s else .ub .oob
   | true, _ => .ub .oob                 -- the pointer bits of a heap / static value are not text
-def str.from_utf8_unchecked {ρ} (sl : RawSlice) : M ρ Str := pure ⟨sl.b⟩
+/-- what `str::from_utf8_unchecked` is applied to: a slice read through a raw pointer, or the caller's `&[u8]` -/
+class HasBytes (β : Type) where
+  bytes : β → Bytes
+instance : HasBytes RawSlice := ⟨fun sl => sl.b⟩
+def str.from_utf8_unchecked {ρ β} [HasBytes β] (sl : β) : M ρ Str := pure ⟨HasBytes.bytes sl⟩
 
 /-! ## `&HeapBuffer` methods: they read the block `self` points at -/
 
@@ -466,6 +470,7 @@ def StrIter.rs_for_each {ρ} (it : StrIter) (body : Str → M ρ Unit) : M ρ Un
 
 structure ByteSlice where
   b : Bytes
+instance : HasBytes ByteSlice := ⟨fun sl => sl.b⟩
 structure U16Slice where
   u : List Nat
 /-- one item of `<[u8]>::utf8_chunks()` -/
